@@ -566,11 +566,7 @@ def judge(ctx, cfg, obs, label=""):
             if got["outcome"] == "absent":
                 continue                                  # reported under presence
             if got["outcome"] != "sent":
-                if legacy and kind == "async" and got["outcome"] == "KeyError":
-                    ctx.fail("legacy-iam-async-keyerror", f"add-iam-methods: asyncio {snake(m)} raises KeyError (the callable is not in "
-                             f"transport._wrapped_methods) while the sync client's works", p2)
-                else:
-                    ctx.fail("grpc:raised", f"{kind} {snake(m)} raised {got['outcome']}: {res.get('msg', '')[:200]}", p2)
+                ctx.fail("grpc:raised", f"{kind} {snake(m)} raised {got['outcome']}: {res.get('msg', '')[:200]}", p2)
                 continue
             if len(srv) != 1 or got["path"] != f"/{API_OF[m]}/{m}":
                 ctx.fail("grpc:path", f"{kind} {snake(m)} reached {[s['path'] for s in srv]}, canonical path is /{API_OF[m]}/{m}", p2)
